@@ -81,6 +81,8 @@ var props = []Prop{
 		Batches: []Batch{
 			{Name: "sched-nofault", Engine: "sched", Bin: "worker-hook", Quick: 1500, Thorough: 150000, Knobs: map[string]string{"faults": "off"}, Timeout: 60 * time.Second},
 			{Name: "sched-faults", Engine: "sched", Bin: "worker-hook", Quick: 2500, Thorough: 250000, Knobs: map[string]string{"faults": "on"}, Timeout: 60 * time.Second},
+			{Name: "race-firstuse", Engine: "race", Kind: "race", Race: true, Quick: 32, Thorough: 3000, Knobs: map[string]string{"mode": "firstuse"}, Timeout: 240 * time.Second},
+			{Name: "race-shared", Engine: "race", Race: true, Quick: 400, Thorough: 40000, Knobs: map[string]string{"mode": "shared"}, Timeout: 240 * time.Second},
 		},
 	},
 }
